@@ -23,7 +23,7 @@ RULE = ("run = pool of named games + 3-12 ops from {write input file in one of 5
         "or an overwrite of a different earlier report, or a fired I/O fault/interrupt; distinct = hash of (op shapes, game hashes, faults fired)")
 
 STEMS = ["in1", "My_Games_2", "x", "robot_1_w2_l2_r6", "A", "paper_games", "t_0"]
-GNAMES = ["g", "game_a", "game_b", "X1", "fig_5_5", "a", "b2", "Robot_47", "test", "n0", "big_reward", "z_9", "game_c"]
+GNAMES = ["g", "game_a", "game_b", "X1", "fig_5_5", "a", "b2", "Robot_47", "test", "n0", "big_reward", "z_9", "game_c", "G_", "_", "0", "Z"*3 + "_" + "9"*40, "no_prune", "UPPER_lower_123"]
 DIRS = ["inputs", "inputs", "inputs", "other", "inputs/nested", "ABS"]
 EXTS = [".py", ".py", ".py", ".txt", ""]
 ENTRY_KEYS = ("msg", "n_states", "n_transitions", "n_iterations_reach", "n_iterations_rew",
@@ -55,6 +55,8 @@ def gen(rng, tier, ctx):
     def write(pth=None):
         pth = pth or rng.choice(paths)
         k = rng.randint(1, min(n, 5))
+        if rng.random() < 0.03:
+            k = 0               # an empty dictionary of games is a legal input file
         return {"op": "write_input", "dir": pth[0], "stem": pth[1], "ext": pth[2],
                 "games": rng.sample(range(n), k), "style": rng.choice(textstyle.STYLES), "seed": rng.randint(0, 999)}
 
@@ -232,7 +234,7 @@ def execute(spec, w, ctx):
             dropped = len(op["games"]) - len(games)
             if dropped:
                 discards["unusable-game"] = discards.get("unusable-game", 0) + dropped
-            if not games:
+            if not games and op["games"]:
                 continue
             path, rel = _path(w, op)
             denoted_now = {pool[g]["name"]: dec(pool[g]["desc"]) for g in games}
@@ -247,7 +249,7 @@ def execute(spec, w, ctx):
             # an editor changes one digit and saves: same length, and (coarse) within the mtime granularity
             path, rel = _path(w, op)
             rec = files.get(rel)
-            if rec is None:
+            if rec is None or not rec["games"]:
                 continue
             import copy
             new = copy.deepcopy(rec["games"])
@@ -375,8 +377,11 @@ def _judge(i_op, op, out, cap, before, w, denoted, clean):
                 return viol("I16.2", i_op, "`-s` run exited normally but %s does not exist (changed: %s)" % (target, changed),
                             "report-missing" if clean else "silent-failure")
             others = [c for c in changed if c != target]
+            clobbered = [c for c in others if _is_user_file(c)]
+            if clobbered:
+                return viol("I16.2", i_op, "`-s` run changed files other than %s: %s" % (target, clobbered), "stray-write")
             if others:
-                return viol("I16.2", i_op, "`-s` run changed files other than %s: %s" % (target, others), "stray-write")
+                w.probe("auxiliary-file-written")   # a log/cache next to the report is not what C16 forbids
             try:
                 text = after[target].decode("utf-8")
             except UnicodeDecodeError as e:
@@ -391,8 +396,11 @@ def _judge(i_op, op, out, cap, before, w, denoted, clean):
                 _time_probe(w, text, ret)
             return v
         else:
+            clobbered = [c for c in changed if _is_user_file(c)]
+            if clobbered:
+                return viol("I16.2", i_op, "run without -s changed report/input files: %s" % clobbered, "stray-write")
             if changed:
-                return viol("I16.2", i_op, "run without -s changed files: %s" % changed, "stray-write")
+                w.probe("auxiliary-file-written")
         return None
     if clean:
         # nothing was injected: the invocation has to finish (inputs are usable by construction)
@@ -400,6 +408,16 @@ def _judge(i_op, op, out, cap, before, w, denoted, clean):
             op["stem"], out["status"], out.get("etype") or out.get("code") or "", out.get("emsg") or out.get("info") or ""),
             "cli-failed")
     return None
+
+
+def _is_user_file(rel):
+    """Reports and input files are the user's; anything else the code may keep for itself."""
+    base = rel.rsplit("/", 1)[-1]
+    if base.startswith("."):
+        return False
+    if rel.startswith("outputs/"):
+        return base.endswith(".txt")
+    return rel.startswith(("inputs/", "other/", "abs_dir/"))
 
 
 def _time_probe(w, text, ret):
